@@ -42,6 +42,39 @@ Theorem C31_durable :
 Proof. exact store_durable. Qed.
 Print Assumptions C31_durable.
 
+(* The same from ANY directory an earlier interrupted save may have left behind: the
+   session file holds [cur] (or does not exist) and there are k leftover temporary files
+   with arbitrary contents; os.CreateTemp (O_EXCL) takes a name that does not exist. *)
+Theorem C31_atomic_with_leftovers :
+  forall (cur : option bytes) (left : list bytes) (new : bytes) (chunks : list bytes) (dirsync : bool)
+         (m : crash_model) (c : option (option bytes)),
+    concat chunks = new ->
+    In c (crash_states m tgt (init_left cur left) (store_ops_named (S (length left)) chunks dirsync)) ->
+    c = Some cur \/ c = Some (Some new).
+Proof. exact store_atomic_left. Qed.
+Print Assumptions C31_atomic_with_leftovers.
+
+Theorem C31_durable_with_leftovers :
+  forall (cur : option bytes) (left : list bytes) (new : bytes) (chunks : list bytes),
+    concat chunks = new ->
+    exists st, run (init_left cur left) (store_ops_named (S (length left)) chunks true) = Some st /\
+               crash Process tgt st = [Some new] /\ crash Power tgt st = [Some new].
+Proof. exact store_durable_left. Qed.
+Print Assumptions C31_durable_with_leftovers.
+
+(* The state of the directory after a crash is the start state of the next save: what a
+   process crash before the rename leaves (the temporary file with whatever was written) is
+   exactly the start state with one more leftover, so C31_atomic_with_leftovers applies to
+   the next save, and to the one after the next interrupted save, and so on.  (After the
+   rename the directory holds the new session and no extra file; after power loss the
+   leftover may additionally be truncated or missing: contents are arbitrary in the theorem.) *)
+Theorem C31_crash_state_is_next_start :
+  forall (cur : option bytes) (left : list bytes) (nd : inode) f,
+    recover_process (mid cur left nd (D0 cur left) [DCreate (S (length left)) (S (length left))] f)
+    = init_left cur (left ++ [i_vol nd]).
+Proof. exact crash_before_rename_is_next_start. Qed.
+Print Assumptions C31_crash_state_is_next_start.
+
 (* The sequence before the repair, os.WriteFile = open(O_TRUNC); write; close, is not
    atomic (empty and torn files, already under a process crash): the finding fixed in
    /repo; the witness is corpus/C31/torn-write.json. *)
